@@ -281,6 +281,15 @@ static void run_hist(char *capf, char *failf, char *opsf) {
 	be_reset();
 }
 
+/* ------------------------------------------------------------------ lazy backend for "huge" */
+static void *huge_p[64]; static int huge_n, huge_bad;
+static void *hugeMalloc(UriMemoryManager *m, size_t n) { (void)m; void *p = malloc(n); if (p && huge_n < 64) huge_p[huge_n++] = p; return p; }
+static void hugeFree(UriMemoryManager *m, void *p) {
+	(void)m;
+	for (int i = 0; i < huge_n; i++) if (huge_p[i] == p && p) { huge_p[i] = NULL; free(p); return; }
+	huge_bad++;
+}
+
 int main(void) {
 	char *line = NULL; size_t cap = 0; ssize_t n;
 	while ((n = getline(&line, &cap, stdin)) > 0) {
@@ -316,6 +325,39 @@ int main(void) {
 			put("selftest "); putf("%llu", (unsigned long long)rc); putf(" live=%llu", live);
 			putf(" fault=%llu", (unsigned long long)fault);
 			be_reset();
+		}
+		else if (!strcmp(f[0], "huge")) {
+			/* blocks of 4 GiB and more (sizes that do not fit 32 bits) through a manager completed from a lazy backend: the C
+			 * library's malloc without any filling, so that only the pages written here are ever touched */
+			UriMemoryManager backend, mm;
+			memset(&backend, 0, sizeof backend); memset(&mm, 0, sizeof mm);
+			backend.malloc = hugeMalloc; backend.free = hugeFree; huge_n = 0; huge_bad = 0;
+			const char *verdict = "ok";
+			if (uriCompleteMemoryManager(&mm, &backend) != URI_SUCCESS) verdict = "FAIL:complete";
+			else {
+				static const size_t sizes[] = { ((size_t)1 << 32) + 8, (size_t)1 << 32, ((size_t)1 << 32) - 8, ((size_t)1 << 33) + 24, ((size_t)1 << 32) + 4096 };
+				for (size_t si = 0; si < sizeof sizes / sizeof sizes[0] && !strcmp(verdict, "ok"); si++) {
+					size_t S = sizes[si];
+					unsigned char *p = mm.malloc(&mm, S);
+					if (!p) { verdict = "nomem"; break; }
+					for (size_t i = 0; i < 64; i++) { p[i] = (unsigned char)(i * 7 + 1 + si); p[S - 64 + i] = (unsigned char)(i * 5 + 3); }
+					/* full-size usability was just exercised at both ends; shrink: the common prefix (64 bytes) must survive */
+					unsigned char *q = mm.realloc(&mm, p, 64);
+					if (!q) { verdict = "FAIL:shrink-refused"; mm.free(&mm, p); break; }
+					for (size_t i = 0; i < 64; i++) if (q[i] != (unsigned char)(i * 7 + 1 + si)) { verdict = "FAIL:prefix-lost-on-shrink"; break; }
+					/* grow back beyond 32 bits: again the common prefix, and the far end must be usable */
+					unsigned char *r = mm.reallocarray(&mm, q, S / 8, 8);
+					if (!r) { mm.free(&mm, q); if (!strcmp(verdict, "ok")) verdict = "nomem"; break; }
+					for (size_t i = 0; i < 64; i++) if (r[i] != (unsigned char)(i * 7 + 1 + si)) { verdict = "FAIL:prefix-lost-on-growth"; break; }
+					r[S / 8 * 8 - 1] = 0x77;
+					/* a second block of the same kind next to it, then grow the first by a little: a move copies 4 GiB only if the
+					 * recorded size is right; skipped (cost); release */
+					mm.free(&mm, r);
+				}
+				if (!strcmp(verdict, "ok") && huge_bad) verdict = "FAIL:backend-got-a-foreign-or-repeated-pointer";
+				for (int i = 0; i < huge_n; i++) if (huge_p[i] && !strcmp(verdict, "ok")) verdict = "FAIL:backend-block-outstanding";
+			}
+			put("huge "); put(verdict);
 		}
 		else put("?unknown-op");
 		puts(out ? out : "");
